@@ -305,55 +305,175 @@ theorem cinv_startReset (c : Ctl) (h : CInv c) (h1 : ¬ c.replicas.length > 0) :
   · show ([] : List (String × Nat)) = c.readers; rw [f.2.1]
   · show false = c.available; rw [f.2.2]
 
-theorem cinv_stepStart (c : Ctl) (h : CInv c) (addr : String) (cok : Bool) (size : Nat) (swo : Bool)
-    (clone : String) (srw : Bool) (rev : Option Nat) (ck : CkEnv) :
-    CInv (c.stepStart addr cok size swo clone srw rev ck).1 := by
-  unfold stepStart
-  simp only
-  by_cases h1 : c.replicas.length > 0
-  · rw [if_pos h1]; exact h
+/-- attaching a WO replica keeps the whole invariant (a WO entry does not change the RW count, and
+    a list that is not full has no checkpoint) -/
+theorem cinv_attach (c : Ctl) (h : CInv c) (addr : String) (id : Nat) (hid : c.nextId = id + 1)
+    (hlt : ∀ b ∈ c.backends, b.id < id) (hcl : ∀ i ∈ c.closed, i < id)
+    (hno : c.hasReplica addr = false) (hwo : c.replicas.filter (fun r => r.2 = .wo) = [])
+    (hlen : c.replicas.length < c.rf) : CInv (c.attach addr id) := by
+  refine ⟨ccore_attach c h.core addr id hid hlt hcl hno hwo hlen, ?_, ?_⟩
+  · have hs := h.status
+    unfold Status at hs ⊢
+    have e : rwOf (c.attach addr id).replicas = rwOf c.replicas := by
+      show rwOf (c.replicas ++ [(addr, CMode.wo)]) = rwOf c.replicas
+      unfold rwOf; rw [List.filter_append]; simp
+    rw [e]; exact hs
+  · intro hne
+    have := h.ckpt hne
+    omega
+
+theorem setMode_length (c : Ctl) (a : String) (m : CMode) : (c.setMode a m).replicas.length = c.replicas.length := by
+  unfold setMode; split
+  · rfl
+  · exact (setModeCore_same c a m).2.2.1
+
+theorem setMode_rf0 (c : Ctl) (a : String) (m : CMode) : (c.setMode a m).rf = c.rf := by
+  unfold setMode; split
+  · rfl
+  · exact (setModeCore_same c a m).2.1
+
+theorem removeReplica_length_le (c : Ctl) (a : String) (e : CkEnv) :
+    (c.removeReplica a e).replicas.length ≤ c.replicas.length := by
+  rw [removeReplica_replicas]; exact List.length_filter_le _ _
+
+theorem canAdd_length_le (c : Ctl) (addr : String) (tk : Option Bool) (c1 : Ctl) (e : c.canAdd addr tk = some c1) :
+    c1.replicas.length ≤ c.replicas.length ∧ c1.rf = c.rf := by
+  unfold canAdd at e
+  split at e
+  · cases e
+  · split at e
+    · cases e; exact ⟨Nat.le_refl _, rfl⟩
+    · split at e
+      · cases e
+        exact ⟨removeReplica_length_le c _ _, removeReplica_rf c _ _⟩
+      · cases e
+
+/-- with `takeover = none` nothing is removed: `canAdd` only tests -/
+theorem canAdd_none_eq (c : Ctl) (addr : String) (c1 : Ctl) (e : c.canAdd addr none = some c1) : c1 = c := by
+  unfold canAdd at e
+  split at e
+  · cases e
+  · split at e
+    · cases e; rfl
+    · simp at e
+
+/-- one address of `Start`: the invariant is kept, the list grows by at most one entry -/
+theorem cinv_startOne (c : Ctl) (h : CInv c) (e : StartEnv) (hlen : c.replicas.length < c.rf) :
+    CInv (c.startOne e).1 ∧ (c.startOne e).1.replicas.length ≤ c.replicas.length + 1 ∧ (c.startOne e).1.rf = c.rf := by
+  unfold startOne
+  by_cases h1 : (!e.createOk) = true
+  · rw [if_pos h1]; exact ⟨cinv_dropLeader _ h, Nat.le_succ _, rfl⟩
   · rw [if_neg h1]
-    by_cases h2 : addr ≠ full c.maxRev
-    · rw [if_pos h2]; exact h
+    simp only
+    -- the state after Create and the size adoption
+    have hr : CInv c.reserveId := cinv_reserveId c h
+    have hc1 : CInv (c.reserveId.adoptSize e.size) := by
+      unfold adoptSize; split
+      · exact hr.congr rfl rfl rfl rfl rfl rfl rfl rfl rfl rfl rfl
+      · exact hr
+    have e1 : (c.reserveId.adoptSize e.size).replicas = c.replicas ∧ (c.reserveId.adoptSize e.size).rf = c.rf ∧
+        (c.reserveId.adoptSize e.size).nextId = c.nextId + 1 ∧ (c.reserveId.adoptSize e.size).backends = c.backends ∧
+        (c.reserveId.adoptSize e.size).closed = c.closed := by
+      unfold adoptSize; split <;> exact ⟨rfl, rfl, rfl, rfl, rfl⟩
+    generalize c.reserveId.adoptSize e.size = c1 at hc1 e1 ⊢
+    by_cases h2 : c1.size ≠ e.size
+    · rw [if_pos h2]
+      exact ⟨cinv_dropLeader _ hc1, by show c1.replicas.length ≤ _; rw [e1.1]; exact Nat.le_succ _, e1.2.1⟩
     · rw [if_neg h2]
-      have h0 := cinv_startReset c h h1
-      by_cases h3 : (!cok) = true
-      · rw [if_pos h3]; exact cinv_dropLeader _ h0
-      · rw [if_neg h3]
-        have h1' := cinv_reserve _ h0 size
-        by_cases h4 : (!swo) = true
-        · rw [if_pos h4]; exact cinv_dropLeader _ (cinv_call _ h1' _ _)
+      split
+      · exact ⟨cinv_dropLeader _ hc1, by show c1.replicas.length ≤ _; rw [e1.1]; exact Nat.le_succ _, e1.2.1⟩
+      · rename_i c1' ec
+        have := canAdd_none_eq c1 e.addr c1' ec
+        subst this
+        obtain ⟨_, hno, hwo⟩ := canAdd_some c1' hc1 e.addr none c1' ec
+        have h2' := cinv_call _ hc1 c.nextId "SetReplicaMode"
+        by_cases h4 : (!e.setWoOk) = true
+        · rw [if_pos h4]
+          exact ⟨cinv_dropLeader _ h2', by show c1'.replicas.length ≤ _; rw [e1.1]; exact Nat.le_succ _, e1.2.1⟩
         · rw [if_neg h4]
-          have h2' := cinv_call _ h1' c.nextId "SetReplicaMode"
           have hc := h.core
-          have core2 := ccore_attach _ h2'.core addr c.nextId rfl (by intro b hb; cases hb)
-            (by intro i hi; exact hc.idsLt.2 i hi)
-            (by simp [hasReplica, call, reserve, startReset, reset])
-            (by simp [call, reserve, startReset, reset])
-            (by show ([] : List (String × CMode)).length < c.rf; have := hc.rfPos; simp; omega)
-          obtain ⟨hrep, _⟩ := empty_of_no_replicas c h h1
-          have st2 : Status (((c.startReset.reserve size).call c.nextId "SetReplicaMode").attach addr c.nextId) := by
-            have hs : Status c := h.status
-            unfold Status at hs ⊢
-            rw [hrep] at hs
-            exact hs
-          have ck2 : CkptOk (((c.startReset.reserve size).call c.nextId "SetReplicaMode").attach addr c.nextId) := by
-            intro hne
-            have hk := h.ckpt (by exact hne)
-            rw [hrep] at hk
-            have := hc.rfPos
-            simp at hk; omega
-          have inv2 : CInv _ := ⟨core2, st2, ck2⟩
+          have inv3 : CInv ((c1'.call c.nextId "SetReplicaMode").attach e.addr c.nextId) :=
+            cinv_attach _ h2' e.addr c.nextId (by show c1'.nextId = _; exact e1.2.2.1)
+              (by intro b hb; have hb' : b ∈ c.backends := by rw [← e1.2.2.2.1]; exact hb
+                  exact hc.idsLt.1 b hb')
+              (by intro i hi; have hi' : i ∈ c.closed := by rw [← e1.2.2.2.2]; exact hi
+                  exact hc.idsLt.2 i hi')
+              hno hwo (by show c1'.replicas.length < c1'.rf; rw [e1.1, e1.2.1]; exact hlen)
+          have len3 : ((c1'.call c.nextId "SetReplicaMode").attach e.addr c.nextId).replicas.length = c.replicas.length + 1 := by
+            show (c1'.replicas ++ [(e.addr, CMode.wo)]).length = _
+            rw [e1.1]; simp
+          have rf3 : ((c1'.call c.nextId "SetReplicaMode").attach e.addr c.nextId).rf = c.rf := e1.2.1
           split
-          · exact cinv_startFront _ (cinv_removeReplica _ inv2 addr CkEnv.none)
-          · have inv3 := cinv_call _ inv2 c.nextId "SetReplicaMode"
+          · refine ⟨cinv_removeReplica _ inv3 e.addr CkEnv.none, ?_, ?_⟩
+            · show (Ctl.removeReplica _ _ _).replicas.length ≤ _
+              have := removeReplica_length_le ((c1'.call c.nextId "SetReplicaMode").attach e.addr c.nextId) e.addr CkEnv.none
+              omega
+            · show (Ctl.removeReplica _ _ _).rf = _
+              rw [removeReplica_rf]; exact rf3
+          · have inv4 := cinv_call _ inv3 c.nextId "SetReplicaMode"
             split
-            · exact cinv_startFront _ (cinv_removeReplica _ inv3 addr CkEnv.none)
-            · have inv4 := cinv_setMode _ inv3 addr .rw (by decide)
-              split
-              · exact cinv_startFront _ inv4
-              · have inv5 := cinv_updateVolStatus _ inv4.core inv4.ckpt
-                exact cinv_startFront _ (cinv_updateCheckpoint _ inv5.core inv5.status ck)
+            · refine ⟨cinv_removeReplica _ inv4 e.addr CkEnv.none, ?_, ?_⟩
+              · show (Ctl.removeReplica _ _ _).replicas.length ≤ _
+                have := removeReplica_length_le (((c1'.call c.nextId "SetReplicaMode").attach e.addr c.nextId).call c.nextId "SetReplicaMode") e.addr CkEnv.none
+                have e4 : (((c1'.call c.nextId "SetReplicaMode").attach e.addr c.nextId).call c.nextId "SetReplicaMode").replicas.length = c.replicas.length + 1 := len3
+                omega
+              · show (Ctl.removeReplica _ _ _).rf = _
+                rw [removeReplica_rf]; exact rf3
+            · refine ⟨cinv_setMode _ inv4 e.addr .rw (by decide), ?_, ?_⟩
+              · show (Ctl.setMode _ _ _).replicas.length ≤ _
+                rw [setMode_length]
+                have e4 : (((c1'.call c.nextId "SetReplicaMode").attach e.addr c.nextId).call c.nextId "SetReplicaMode").replicas.length = c.replicas.length + 1 := len3
+                omega
+              · show (Ctl.setMode _ _ _).rf = _
+                rw [setMode_rf0]; exact rf3
+
+/-- the loop of `Start`: as long as the addresses still to come fit under the replication factor -/
+theorem cinv_startLoop (es : List StartEnv) : ∀ (c : Ctl), CInv c → c.replicas.length + es.length ≤ c.rf →
+    CInv (c.startLoop es).1 := by
+  induction es with
+  | nil => intro c h _; exact h
+  | cons e es ih =>
+    intro c h hl
+    have hl' : c.replicas.length < c.rf := by simp at hl; omega
+    obtain ⟨i1, l1, r1⟩ := cinv_startOne c h e hl'
+    unfold startLoop
+    split
+    · apply ih _ i1
+      rw [r1]; simp at hl; omega
+    · exact i1
+
+theorem cinv_foldl_setMode (l : List String) (m : CMode) (hm : m ≠ .wo) : ∀ c : Ctl, CInv c →
+    CInv (l.foldl (fun c a => c.setMode a m) c) := by
+  induction l with
+  | nil => intro c h; exact h
+  | cons a l ih => intro c h; exact ih _ (cinv_setMode c h a m hm)
+
+theorem cinv_stepStart (c : Ctl) (h : CInv c) (es : List StartEnv) (ck : CkEnv) :
+    CInv (c.stepStart es ck).1 := by
+  unfold stepStart
+  split
+  · exact h
+  · rename_i e0 rest
+    by_cases h1 : c.replicas.length > 0
+    · rw [if_pos h1]; exact h
+    · rw [if_neg h1]
+      by_cases h2 : e0.addr ≠ full c.maxRev
+      · rw [if_pos h2]; exact h
+      · rw [if_neg h2]
+        by_cases h3 : (e0 :: rest).length > c.rf
+        · rw [if_pos h3]; exact h
+        · rw [if_neg h3]
+          have h0 := cinv_startReset c h h1
+          have hloop := cinv_startLoop (e0 :: rest) c.startReset h0
+            (by show ([] : List (String × CMode)).length + _ ≤ c.rf; simp at h3 ⊢; omega)
+          split
+          · exact cinv_startFront _ hloop
+          · simp only
+            split
+            · exact cinv_startFront _ hloop
+            · have i2 := cinv_foldl_setMode (staleAddrs (e0 :: rest)) .err (by decide) _ hloop
+              have i3 := cinv_updateVolStatus _ i2.core i2.ckpt
+              exact cinv_startFront _ (cinv_updateCheckpoint _ i3.core i3.status ck)
 
 /-- **Every request preserves the controller invariant.** -/
 theorem cinv_step (c : Ctl) (h : CInv c) (op : CtlOp) : CInv (c.step op).1 := by
@@ -361,7 +481,7 @@ theorem cinv_step (c : Ctl) (h : CInv c) (op : CtlOp) : CInv (c.step op).1 := by
   unfold step
   cases op with
   | register r so al el => exact cinv_stepRegister _ h0 r so al el
-  | start a cok sz swo cl srw rev ck => exact cinv_stepStart _ h0 a cok sz swo cl srw rev ck
+  | start es ck => exact cinv_stepStart _ h0 es ck
   | add a tk cok sf nso swo ck => exact cinv_stepAdd _ h0 a tk cok sf nso swo ck
   | addPre a tk => exact cinv_stepAddPre _ h0 a tk
   | addPost a tk cok sf nso swo ck => exact cinv_stepAddPost _ h0 a tk cok sf nso swo ck
